@@ -19,3 +19,13 @@ ASSUMPTIONS = ['the datetime model agrees with CPython datetime (validated diffe
                'native replay of every counterexample)',
                'binary64 arithmetic on 1/4-grid quantities with capacities from the menu equals exact rational '
                'arithmetic after rounding to microseconds (DESIGN.md §4.4)', 'z3 answers are correct']
+BOUNDS = {
+    'quick': {'tasks': '2-3 (targeted 4- and 6-task shapes for inherited dependencies)', 'profiles': 'targeted: every value of every '
+              'dimension occurs, not the full product (see harness/sched.py FWD_QUICK_PROFILES / BWD_QUICK_PROFILES and the property module)',
+              'estimate/spent': 'symbolic on the 1/4 (or 1/8) grid in [0, E], E <= 12 units (one task spans <= 8 days)',
+              'times_of_day': 'symbolic microsecond of project start/deadline, clock, min_start, fixed dates',
+              'days': 'concrete per fork: start day Monday + menu, clock day offset menu', 'calendars': 'menu of 8 (harness/sched.py CALENDARS)',
+              'per_harness_cap_s': 480},
+    'thorough': {'tasks': '3 (feature products) and 4 (link shapes)', 'profiles': 'harness/sched.py FWD_THOROUGH_PROFILES / BWD_THOROUGH_PROFILES',
+                 'per_harness_cap_s': 1500, 'second_solver': 'every 200th solver-decided assertion query re-decided by z3 4.8.12'},
+}
